@@ -394,7 +394,7 @@ def weave_fn(text, directives, canary=False):
                 add(toks[bo].end, "\n" + d.body + "\n", d)
             elif where == "end":
                 add(toks[bc].start, "\n" + d.body + "\n", d)
-            elif where == "attr":
+            elif where in ("attr", "before"):
                 add(toks[kw].start, d.body + "\n", d)
             elif where == "forname":
                 # Verus ghost-iterator name: `for x in EXPR` -> `for x in NAME: EXPR` (spec-only binding)
